@@ -11,6 +11,7 @@ from .core import Unsupported, find_def
 from .driver_py import COQTY, MTr, V, dotted, opaque, prop_listcomp
 
 OUTPUTS = ["GenStops.v"]
+COQTY.update({"deme_list": "(list nat)"})
 GSC, USC, LSC, TREE = "pyhms/stop_conditions/gsc.py", "pyhms/stop_conditions/usc.py", "pyhms/stop_conditions/lsc.py", "pyhms/tree.py"
 DEME_FIELDS = {"is_active": ("d_active", "bool"), "_active": ("d_active", "bool"), "level": ("d_lvl", "nat"), "_level": ("d_lvl", "nat"),
                "n_evaluations": ("d_evals", "nat"), "started_at": ("d_started", "nat"), "_started_at": ("d_started", "nat"),
@@ -24,8 +25,8 @@ class STr(MTr):
         super().__init__(src, "stop", cls, fname)
         self.obj_is, self.sparams = obj_is, params   # params: attribute of self -> (coq name, type)
 
-    def params(self, env, exclude=()):
-        decl, use = super().params(env, exclude)
+    def params(self, env, exclude=(), text=None):
+        decl, use = super().params(env, exclude, text)
         extra = "".join(f"({n} : {COQTY[t]}) " for n, t in self.sparams.values()) + ("(d : nat) " if self.obj_is == "deme" else "")
         extra_use = "".join(f"{n} " for n, _ in self.sparams.values()) + ("d " if self.obj_is == "deme" else "")
         return decl.replace("(c : cfg) (fuel : nat) ", "(c : cfg) (fuel : nat) " + extra), use.replace("c fuel ", "c fuel " + extra_use, 1)
@@ -56,7 +57,7 @@ class STr(MTr):
         base = self._expr(e.value, env, pre)
         if base.ty == "deme":
             if e.attr == "children":
-                return V(f"(child_ids (demes {self.read(pre)}) {base.code})", "nat_list")
+                return V(f"(child_ids (demes {self.read(pre)}) {base.code})", "deme_list")
             fld = DEME_FIELDS.get(e.attr)
             if fld:
                 return V(f"({fld[0]} (dnth {base.code} (demes {self.read(pre)})))", fld[1])
@@ -68,7 +69,7 @@ class STr(MTr):
             i = self._expr(e.slice, env, pre)
             if i.ty != "nat":
                 self.bad(e, "level index")
-            return V(f"(level_ids (demes {self.read(pre)}) {i.code})", "nat_list")
+            return V(f"(level_ids (demes {self.read(pre)}) {i.code})", "deme_list")
         if d == "self.weights" and "weights" in self.sparams:
             i = self._expr(e.slice, env, pre)
             if i.ty != "nat":
@@ -81,7 +82,7 @@ class STr(MTr):
         if d == "all" and len(e.args) == 1 and isinstance(e.args[0], ast.GeneratorExp) and len(e.args[0].generators) == 1 and not e.args[0].generators[0].ifs:
             g = e.args[0].generators[0]
             it = self._expr(g.iter, env, pre)
-            if it.ty in ("nat_list", "ld_list") and isinstance(g.target, ast.Name):
+            if it.ty in ("nat_list", "ld_list", "deme_list") and isinstance(g.target, ast.Name):
                 x = "v_" + g.target.id
                 env2 = dict(env)
                 env2[g.target.id] = V(x, "deme")
@@ -111,7 +112,7 @@ class STr(MTr):
             self.bad(e, "multiplication")
         if isinstance(e, ast.UnaryOp) and isinstance(e.op, ast.Not):
             v = self._expr(e.operand, env, pre)
-            if v.ty == "nat_list":   # `not deme.children`
+            if v.ty in ("nat_list", "deme_list"):   # `not deme.children`
                 return V(f"(Nat.eqb (length {v.code}) 0)", "bool")
         if isinstance(e, ast.Name) and e.id == "_" and e.id not in env:
             self.bad(e, "use of the ignored argument")
@@ -130,8 +131,11 @@ class STr(MTr):
             if v.ty != "bool":
                 self.bad(s, f"return of type {v.ty}")
             return " ".join(pre) + f" ret (Some {v.code})"
-        if isinstance(s, ast.If) and dotted(s.test.values[0].left if isinstance(s.test, ast.BoolOp) and isinstance(s.test.values[0], ast.Compare) else None) == "self.weights" \
-                and len(s.body) == 1 and isinstance(s.body[0], ast.Expr) and isinstance(s.body[0].value, ast.Call) and dotted(s.body[0].value.func) == "self._transform_weights" and not s.orelse:
+        if isinstance(s, ast.If) and not s.orelse and len(s.body) == 1 and isinstance(s.body[0], ast.Expr) and isinstance(s.body[0].value, ast.Call) \
+                and dotted(s.body[0].value.func) == "self._transform_weights" \
+                and all(dotted(n) in ("self.weights", "self") for n in ast.walk(s.test) if isinstance(n, ast.Attribute)) \
+                and all(n.id in ("self", "str", "isinstance", "WeightingStrategy") for n in ast.walk(s.test) if isinstance(n, ast.Name)) \
+                and all(dotted(n.func) == "isinstance" for n in ast.walk(s.test) if isinstance(n, ast.Call)):
             # `if self.weights is None or isinstance(self.weights, str): self._transform_weights(n_levels)`: normalisation of the configured
             # weights (a strategy name becomes a list, once); afterwards self.weights is the list `ws` the machine configuration carries
             a = s.body[0].value.args
@@ -145,10 +149,11 @@ class STr(MTr):
             pre, it = self.expr(s.iter, env)
             inner = dict(env)
             x = self.fresh("it")
-            if it.ty == "ld_list" and isinstance(s.target, ast.Tuple) and len(s.target.elts) == 2 and s.target.elts[0].id == "_":
+            if it.ty == "ld_list" and isinstance(s.target, ast.Tuple) and len(s.target.elts) == 2 and all(isinstance(n, ast.Name) for n in s.target.elts) \
+                    and not any(isinstance(n, ast.Name) and n.id == s.target.elts[0].id for st in s.body for n in ast.walk(st)):   # the level component is not used
                 inner[s.target.elts[1].id] = V(x, "deme")
-            elif it.ty == "nat_list" and isinstance(s.target, ast.Name):
-                inner[s.target.id] = V(x, "deme" if "(level_ids" in it.code or "(child_ids" in it.code else "nat")
+            elif it.ty in ("nat_list", "deme_list") and isinstance(s.target, ast.Name):
+                inner[s.target.id] = V(x, "deme" if it.ty == "deme_list" else "nat")
             else:
                 self.bad(s, f"for over {it.ty}")
             carried = self.assigned_tracked(s.body, env)
@@ -159,15 +164,15 @@ class STr(MTr):
                 if len(carried) != 1 or self.has(s.body, ast.Return):
                     self.bad(s, "accumulating loop with a return or several accumulators")
                 nm = carried[0]
-                decl, use = self.params(env, exclude={"v_" + nm})
                 inner[nm] = V("v_" + nm, env[nm].ty)
                 body = super().block(s.body, inner, lambda e2: f"ret {e2[nm].code}", lambda e2: self.bad(s, "return"))
+                decl, use = self.params(env, exclude={"v_" + nm}, text=body)
                 self.aux.append(f"Definition {self.fname}_forl{k_id} {decl}(v_{nm} : {COQTY[env[nm].ty]}) ({x} : nat) : D {COQTY[env[nm].ty]} :=\n  {body}.\n")
                 after = dict(env)
                 after[nm] = V("v_" + nm, env[nm].ty)
                 return " ".join(pre) + f" v_{nm} <- forl_ {it.code} ({self.fname}_forl{k_id} {use}) {env[nm].code} ;;\n  " + go(after)
-            decl, use = self.params(env)
             body = self.block(s.body, inner, lambda e2: "ret None", ret)
+            decl, use = self.params(env, text=body)
             self.aux.append(f"Definition {self.fname}_forv{k_id} {decl}({x} : nat) : D (option bool) :=\n  {body}.\n")
             r = self.fresh("r")
             return " ".join(pre) + f" {r} <- forv_ {it.code} ({self.fname}_forv{k_id} {use}) ;;\n  (match {r} with Some v_ => ret (Some v_) | None => {go(env)} end)"
